@@ -139,3 +139,111 @@ def invoke(db, ctx):
     ctx.ob("run-bounded", run and brk, "char_len = cat_continuous_len(offset) (%s); per-length loop breaks when sublength > llength (%s)" % (run, brk), fn=f)
     cats = any(fl and "cat_at_char(offset)" in render(fl[0]) for n, fl, ps in _loops(f))
     ctx.ob("iterates-all-classes", cats, "candidates are generated for every class in cat_at_char(offset): %s" % cats, fn=f)
+
+
+def _loop_carried(db, f, loop_node, fl):
+    """locals mutated inside a loop body but declared outside it: {name: lid}"""
+    from ..origins import index as oindex, pat_bindings
+    it, pat, body = fl
+    inside = set()
+    for n, _ in walk(body):
+        if n.get("k") == "Let":
+            for lid, nm in pat_bindings(n["pat"]):
+                inside.add(lid)
+    for lid, nm in pat_bindings(pat):
+        inside.add(lid)
+    carried = {}
+    for n, _ in walk(body):
+        if n.get("k") in ("Assign", "AssignOp"):
+            l = peel(n["l"])
+            if l.get("k") == "Path" and l.get("res") == "local" and l["lid"] not in inside:
+                carried[l["name"]] = l["lid"]
+    return carried
+
+
+@rule("C13.per-class-state", "MeCab OOV generation treats each class of the character independently: the only state carried across iterations "
+                             "of the per-class loop is the returned candidate counter (the remaining-run budget is re-initialised per class)")
+def per_class_state(db, ctx):
+    f = db.one("provide_oov_gen", "MeCabOovPlugin")
+    outer = None
+    for n, fl, ps in _loops(f):
+        if "cat_at_char" in render(fl[0]) and not any(p.get("k") == "Match" and p.get("src") == "ForLoopDesugar" for p in ps):
+            outer = (n, fl)
+    if outer is None:
+        raise AnchorMissing("provide_oov_gen: loop over the classes of the character")
+    carried = _loop_carried(db, f, outer[0], outer[1])
+    ret = render(f.hir.get("expr") or {})
+    extra = sorted(nm for nm in carried if nm not in ret)
+    ctx.ob("class-loop|carried-state", not extra,
+           "locals mutated in the per-class loop but declared outside it: %s; returned: `%s`; carried state other than the returned counter: %s%s" % (
+               sorted(carried), ret, extra, "" if not extra else " — a budget consumed by one class leaks into the classes visited after it"), fn=f)
+
+
+@rule("C13.run-intersection", "fill_cat_continuity extends a run only while the running INTERSECTION of classes is non-empty: in the continuing "
+                              "branch the carried class set is narrowed to the intersection, in the other branch it restarts from the character's own classes")
+def run_intersection(db, ctx):
+    f = db.one("fill_cat_continuity", "InputBuffer")
+    loops = list(_loops(f))
+    if not loops:
+        raise AnchorMissing("fill_cat_continuity: loop")
+    n0, (it, pat, body), ps0 = loops[0]
+
+    def let_init(nm):
+        for n2, _ in walk(f.hir):
+            if n2.get("k") == "Let" and n2["pat"].get("name") == nm and "init" in n2:
+                return peel(n2["init"])
+        return None
+
+    def as_intersection(e):
+        """(a, b) if e is `a & b`, or a local bound to it"""
+        e = peel(e)
+        if e.get("k") == "Path" and e.get("res") == "local":
+            e = let_init(e["name"]) or e
+        if e.get("k") == "Binary" and e.get("op") == "BitAnd":
+            return local_name(e["l"]), local_name(e["r"])
+        return None
+
+    found = False
+    for n, ps in walk(body):
+        if n.get("k") != "If":
+            continue
+        at = atoms(n["cond"], True)
+        if len(at) != 1:
+            continue
+        a, pol = peel(at[0][0]), at[0][1]
+        ops = None
+        if a.get("k") == "MethodCall" and a.get("method") == "is_empty" and pol is False:
+            ops = as_intersection(a["recv"])
+        elif a.get("k") == "MethodCall" and a.get("method") == "intersects" and pol is True:
+            ops = (local_name(a["recv"]), local_name(a["args"][0]))
+        if not ops or None in ops:
+            continue
+        found = True
+        # which operand is carried across iterations (declared outside the loop body)?
+        inside = {x["pat"].get("name") for x, _ in walk(body) if x.get("k") == "Let"}
+        carried = [o for o in ops if o not in inside]
+        fresh = [o for o in ops if o in inside]
+        ok = False
+        detail = "operands %s" % (ops,)
+        if len(carried) == 1 and len(fresh) == 1:
+            c, cur = carried[0], fresh[0]
+            narrowed = False
+            for x, _ in walk(n["then"]):
+                if x.get("k") == "Assign" and local_name(x["l"]) == c:
+                    i2 = as_intersection(x["r"])
+                    narrowed = bool(i2) and set(i2) == {c, cur}
+                if x.get("k") == "AssignOp" and x.get("op") == "BitAnd" and local_name(x["l"]) == c and local_name(x["r"]) == cur:
+                    narrowed = True
+            restart = "else" in n and any(x.get("k") == "Assign" and local_name(x["l"]) == c and local_name(x["r"]) == cur for x, _ in walk(n["else"]))
+            # an unconditional reassignment after the if defeats the narrowing
+            clobber = False
+            for st in body.get("stmts", []):
+                e = st.get("e") or {}
+                if e.get("k") == "Assign" and local_name(e["l"]) == c:
+                    clobber = True
+            ok = narrowed and restart and not clobber
+            detail = "carried `%s`, current `%s`: narrowed to the intersection in the continuing branch=%s, restarted from the current classes otherwise=%s, " \
+                     "overwritten unconditionally afterwards=%s" % (c, cur, narrowed, restart, clobber)
+        ctx.ob("continuing-branch-narrows", ok, "run continues while `%s`; %s" % (render(n["cond"]), detail), fn=f, site=n.get("sp"))
+    if not found:
+        raise AnchorMissing("fill_cat_continuity: class-intersection test")
